@@ -73,6 +73,7 @@ def harnesses(tier):
     hs.append({"id": "n0/empty", "params": {"status": [], "strand": [], "path": [], "tags": []}, "timeout": 60})
     for gz in (0, 1):
         hs.append({"id": "parsed/%s" % ("bgzf" if gz else "text"), "params": {"kind": "parsed", "gz": gz, "status": ["x", "x", "x"]}, "timeout": 300})
+    hs.append({"id": "parsed/text/no-final-newline", "params": {"kind": "parsed", "gz": 0, "status": ["x", "x", "x"], "nonl": True, "cmax": 1}, "timeout": 300})
     return hs
 
 
@@ -130,7 +131,7 @@ def parsed_check(out, lines, names, st):
 
 def build_parsed(params):
     args = [("s0", "int"), ("s1", "int"), ("s2", "int"), ("c", "int")]
-    pre = ["0 <= s0 <= 2 and 0 <= s1 <= 2 and 0 <= s2 <= 2 and 0 <= c <= %d" % (len(NAMECH) - 1)]
+    pre = ["0 <= s0 <= 2 and 0 <= s1 <= 2 and 0 <= s2 <= 2 and 0 <= c <= %d" % params.get("cmax", len(NAMECH) - 1)]
 
     def case(s0, s1, s2, c):
         P = M["P"]
@@ -142,7 +143,8 @@ def build_parsed(params):
                 ch = v
         lines, names, tsv, st = parsed_setup(sel, ch)
         e.files["h.tsv"] = stubs.MFile("text", tsv, None)
-        e.files["in.gaf"] = stubs.MFile("bgzf" if params["gz"] else "text", lines, None)
+        flines = lines[:-1] + [lines[-1].rstrip("\n")] if params.get("nonl") else lines
+        e.files["in.gaf"] = stubs.MFile("bgzf" if params["gz"] else "text", flines, None)
         # an earlier call in the same process with another haplotag file must not influence this one
         e.files["h0.tsv"] = stubs.MFile("text", ["p0\tH2\t5\tchrX\n", "p1\tH2\t5\tchrX\n", "%s\tH2\t5\tchrX\n" % names[2]], None)
         P.add_phase_info("in.gaf", "h0.tsv", "o0.gaf")
@@ -294,7 +296,7 @@ def replay(params, model, wd):
         ma = list(model["args"]) + [0]
         lines, names, tsv, st = parsed_setup(ma[:3], NAMECH[ma[3]])
         gaf = os.path.join(wd, "in.gaf")
-        open(gaf, "w").write("".join(lines))
+        open(gaf, "w").write("".join(lines)[:-1] if params.get("nonl") else "".join(lines))
         if params["gz"]:
             pysam.tabix_compress(gaf, gaf + ".gz", force=True)
             gaf += ".gz"
